@@ -16,7 +16,7 @@ Fixpoint iotaR (n : nat) (s : R) : list R :=
 
 (* np.linspace(0, 0.5*fs, M, endpoint=False) = arange(M) * ((0.5*fs)/M) *)
 Definition fft_freqs (fs : R) (n : nat) : list R :=
-  let M := (nfft n / 2)%nat in map (fun k => k * (0.5 * fs / INR M)) (iotaR M 0).
+  let M := (nfft n / 2)%nat in map (fun k => k * (1 / 2 * fs / INR M)) (iotaR M 0).
 
 (* np.linspace(0, nfft/fs, nfft, endpoint=False) *)
 Definition time_axis (fs : R) (n : nat) : list R :=
@@ -25,7 +25,7 @@ Definition time_axis (fs : R) (n : nat) : list R :=
 (* frequency_step: prepend 2f0-f1, append 2f_last - f_last-1, diff, average of neighbours *)
 Fixpoint pairavg (d : list R) : list R :=
   match d with
-  | a :: ((b :: _) as t) => (a * 0.5 + b * 0.5) :: pairavg t
+  | a :: ((b :: _) as t) => (a * (1 / 2) + b * (1 / 2)) :: pairavg t
   | _ => []
   end.
 
